@@ -114,9 +114,11 @@ def run(chk):
             if rec["method"] == "eq_lossy":
                 negated = False
                 from facts import uses_of
-                for kind, ubb, si, x in uses_of(b, rec["dest"]):
-                    if kind == "stmt" and x["rv"]["k"] == "unop" and x["rv"]["op"] == "Not":
-                        negated = True
+                import cfgq
+                for al in cfgq.copies_forward(b, rec["dest"]):
+                    for kind, ubb, si, x in uses_of(b, al):
+                        if kind == "stmt" and x["rv"]["k"] == "unop" and x["rv"]["op"] == "Not":
+                            negated = True
                 d["negated"] = negated
                 if rec["opcodes"] == {"Ne"} and not negated:
                     ok = False
